@@ -22,7 +22,12 @@ from puresnmp.adt import (
     V3Flags,
 )
 from puresnmp.credentials import V3, Credentials
-from puresnmp.exc import NotInTimeWindow, SnmpError, UnknownEngineId
+from puresnmp.exc import (
+    ErrorResponse,
+    NotInTimeWindow,
+    SnmpError,
+    UnknownEngineId,
+)
 from puresnmp.pdu import GetRequest, PDUContent, Report
 from puresnmp.plugins.security import SecurityModel
 from puresnmp.transport import MESSAGE_MAX_SIZE
@@ -622,7 +627,15 @@ def validate_usm_message(message: PlainMessage) -> None:
         # a normal response they are data (f.ex. the answer to a GET on that
         # very counter), only a report uses them as error indication.
         return
-    pdu = message.scoped_pdu.data.value
+    try:
+        pdu = message.scoped_pdu.data.value
+    except ErrorResponse as exc:
+        # A report with a non-zero error-status. It must not be mistaken for
+        # the error-response to our request (f.ex. a "noSuchName" would end
+        # a walk quietly): reports are not necessarily authenticated.
+        raise SnmpError(
+            f"Unexpected report from remote device (with error-status): {exc}"
+        ) from exc
     errors = {
         ObjectIdentifier(
             "1.3.6.1.6.3.15.1.1.1.0"
